@@ -739,73 +739,86 @@ func runC50(c *Ctx) {
 		return true
 	})
 	c.Floor("comparator position uses", npos, 2)
-	// the comparator reads rttLookup[key(nodes[i])], rttLookup[key(nodes[j])]
-	type pair struct{ li, lj bool }
-	eval := func(lOK, rOK bool, l, r *big.Int) bool {
-		// symbolic: substitute the two map reads
-		env := &evalEnv{f: g, vars: map[types.Object]Val{}}
-		ok := true
-		for _, st := range cmpLit.Body.List {
-			if as, isAs := st.(*ast.AssignStmt); isAs && len(as.Lhs) == 2 && len(as.Rhs) == 1 {
-				if ix, isIx := as.Rhs[0].(*ast.IndexExpr); isIx {
-					which := ""
-					ast.Inspect(ix.Index, func(m ast.Node) bool {
-						if in, ok := m.(*ast.IndexExpr); ok {
-							switch g.Prov(in.Index) {
-							case "lit.param#0":
-								which = "i"
-							case "lit.param#1":
-								which = "j"
-							}
-						}
-						return true
-					})
-					v0, _ := as.Lhs[0].(*ast.Ident)
-					v1, _ := as.Lhs[1].(*ast.Ident)
-					if which == "" || v0 == nil || v1 == nil {
-						ok = false
-						continue
+	// the comparator is executed on the evaluator for every valuation: the sorted slice holds
+	// two opaque nodes, the measurement table is a map with an entry for a node exactly when
+	// it is measured, keys are produced by whatever one-argument key function the code
+	// applies to a node (recorded, and compared with the key the table is filled under).
+	var tableVar *types.Var
+	for _, nd := range shallowNodes(gn.Body) {
+		var names []*ast.Ident
+		switch x := nd.(type) {
+		case *ast.AssignStmt:
+			if x.Tok == token.DEFINE {
+				for _, l := range x.Lhs {
+					if id, ok := l.(*ast.Ident); ok {
+						names = append(names, id)
 					}
-					if which == "i" {
-						val := l
-						if !lOK {
-							val = big.NewInt(0)
-						}
-						env.vars[g.Info.ObjectOf(v0)] = val
-						env.vars[g.Info.ObjectOf(v1)] = lOK
-					} else {
-						val := r
-						if !rOK {
-							val = big.NewInt(0)
-						}
-						env.vars[g.Info.ObjectOf(v0)] = val
-						env.vars[g.Info.ObjectOf(v1)] = rOK
-					}
-					continue
 				}
 			}
-			var res *returned
-			func() {
-				defer func() {
-					if rec := recover(); rec != nil {
-						if u, isU := rec.(evalUndecided); isU {
-							c.Failf("gateway comparator not evaluable: %s", u.msg)
-						}
-						panic(rec)
-					}
-				}()
-				res = env.stmt(st)
-			}()
-			if res != nil {
-				b, _ := res.vals[0].(bool)
-				return b
+		case *ast.ValueSpec:
+			names = x.Names
+		}
+		for _, id := range names {
+			if v, ok := gn.Info.Defs[id].(*types.Var); ok {
+				if mt, ok := v.Type().Underlying().(*types.Map); ok && strings.HasSuffix(mt.Elem().String(), "time.Duration") {
+					tableVar = v
+				}
 			}
 		}
-		if !ok {
-			c.Failf("gateway comparator: map reads not recognised (undecided)")
+	}
+	if tableVar == nil {
+		c.Failf("getConnectedNodes: measurement table (a local map to time.Duration) not found (undecided)")
+	}
+	keyFnSeen := ""
+	eval := func(lOK, rOK bool, l, r *big.Int) bool {
+		env := &evalEnv{f: g, vars: map[types.Object]Val{}}
+		env.vars[sortedObj] = sliceVal{objVal{id: big.NewInt(1)}, objVal{id: big.NewInt(2)}}
+		entries := map[string]Val{}
+		if lOK {
+			entries["k1"] = l
 		}
-		c.Failf("gateway comparator: no return reached")
-		return false
+		if rOK {
+			entries["k2"] = r
+		}
+		env.vars[tableVar] = mapVal{entries: entries, zero: big.NewInt(0)}
+		env.ext = func(f *Fn, call *ast.CallExpr, recv Val, args []Val) (Val, bool) {
+			if len(args) != 1 {
+				return nil, false
+			}
+			o, isNode := args[0].(objVal)
+			if !isNode {
+				return nil, false
+			}
+			if t := typeOf(f.Info, call); t == nil || t.Underlying().String() != "string" {
+				return nil, false
+			}
+			keyFnSeen = f.CallKey(call)
+			return "k" + o.id.String(), true
+		}
+		i := 0
+		for _, fld := range cmpLit.Type.Params.List {
+			for _, nm := range fld.Names {
+				env.vars[g.Info.Defs[nm]] = big.NewInt(int64(i))
+				i++
+			}
+		}
+		var res *returned
+		func() {
+			defer func() {
+				if rec := recover(); rec != nil {
+					if u, isU := rec.(evalUndecided); isU {
+						c.Failf("gateway comparator not evaluable: %s", u.msg)
+					}
+					panic(rec)
+				}
+			}()
+			res = env.block(cmpLit.Body.List)
+		}()
+		if res == nil || len(res.vals) != 1 {
+			c.Failf("gateway comparator: no return reached")
+		}
+		b, _ := res.vals[0].(bool)
+		return b
 	}
 	n := 0
 	okAll := true
@@ -848,15 +861,20 @@ func runC50(c *Ctx) {
 	c.Extra("comparator_valuations", n)
 	c.Extra("exhaustive", true)
 	// lookup table: same key function, Snapshot(key, 10s).Average
-	keyFn := ""
-	for _, st := range cmpLit.Body.List {
-		if as, ok := st.(*ast.AssignStmt); ok && len(as.Rhs) == 1 {
-			if ix, ok := as.Rhs[0].(*ast.IndexExpr); ok {
-				if call, ok := ix.Index.(*ast.CallExpr); ok {
-					keyFn = g.CallKey(call)
+	keyFn := keyFnSeen
+	keyCallOf := func(e ast.Expr) string {
+		e = ast.Unparen(e)
+		if call, ok := e.(*ast.CallExpr); ok {
+			return gn.CallKey(call)
+		}
+		if v := gn.varOf(e); v != nil {
+			if defs := gn.defsOf(v); len(defs) == 1 && !defs[0].multi && defs[0].rhs != nil {
+				if call, ok := ast.Unparen(defs[0].rhs).(*ast.CallExpr); ok {
+					return gn.CallKey(call)
 				}
 			}
 		}
+		return ""
 	}
 	okFill := false
 	ast.Inspect(gn.Body, func(n ast.Node) bool {
@@ -865,17 +883,16 @@ func runC50(c *Ctx) {
 			return true
 		}
 		ix, ok := as.Lhs[0].(*ast.IndexExpr)
-		if !ok || types_ExprString(ix.X) != "rttLookup" {
+		if !ok || gn.varOf(ix.X) != tableVar {
 			return true
 		}
-		call, ok := ix.Index.(*ast.CallExpr)
-		okFill = ok && gn.CallKey(call) == keyFn && keyFn != "" && strings.HasSuffix(gn.Prov(as.Rhs[0]), ".Snapshot().Average")
+		okFill = keyCallOf(ix.Index) == keyFn && keyFn != "" && strings.HasSuffix(gn.Prov(as.Rhs[0]), ".Snapshot().Average")
 		return true
 	})
 	c.Ob("lookup", "getConnectedNodes#table-filled-under-the-comparator's-key", gn.Decl.Pos(), okFill, "the measurement table is written under the same key function the comparator reads it with ("+keyFn+"), from Snapshot(...).Average")
 	for _, call := range methodCalls(gn, false, "Snapshot") {
 		v, _ := gn.ConstVal(call.Args[1])
-		c.Ob("lookup", "getConnectedNodes#snapshot-window", call.Pos(), v == "10000000000" && gn.CallKey(call.Args[0].(*ast.CallExpr)) == keyFn, "measurements are the 10 s snapshot of the node's own key")
+		c.Ob("lookup", "getConnectedNodes#snapshot-window", call.Pos(), v == "10000000000" && keyCallOf(call.Args[0]) == keyFn, "measurements are the 10 s snapshot of the node's own key")
 	}
 	for _, r := range gn.Returns() {
 		if len(r.Results) == 1 {
